@@ -2,7 +2,7 @@
 import panics as P
 from cfg import cfg_of
 from flow import Taint, Tracker, callee_matches, field_reads, op_local, prep
-from rules import CallGuard, CallSink, CmpGuard, RetSink, REL_NEG, REL_SWAP, compare_sites
+from rules import CallGuard, CallSink, CmpGuard, RetSink, REL_NEG, REL_SWAP, compare_sites, OrWrapperGuard
 from props.C04 import call_results
 
 META = {
@@ -114,33 +114,43 @@ def run(R):
                [[CallGuard([RG + "::check_register_op"], ("Ok",), "check_register_op is Ok")],
                 [CmpGuard(lambda b: ops_len(b), lambda b: set(), "Lt", "ops.len() below the entry limit", close=False)] if False else
                 [_LenLimitGuard(F, "count")],
-                [_SizeGuard(F)]],
+                [OrWrapperGuard(F, _SizeGuard(F), RG + "::check_register_op")]],
                descr="add_op inserts only permitted, in-limit, in-size ops")
 
     # (3) permission gate
     cro = R.body("C06.check_op", RG + "::check_register_op")
     if cro is not None:
-        R.gate("C06.check_op.open", cro, RetSink("Ok"), [[CallGuard(["ant_registers::permissions::Permissions::can_anyone_write"], ("true",), "can_anyone_write()")]],
-               descr="the only unconditional Ok is for registers open to anyone")
-        R.gate("C06.check_op.sig", cro, CallSink("ant_registers::register_op::RegisterOp::verify_signature"),
-               [[CallGuard([RG + "::check_user_permissions"], ("Ok",), "check_user_permissions(op.source) is Ok")]],
-               descr="signature check only counts for a permitted signer")
         prep(cro)
-        vs = [b for b in cro.blocks if b["term"]["k"] == "call" and callee_matches(b["term"], ["ant_registers::register_op::RegisterOp::verify_signature"])]
-        ok = bool(vs) and all(b["term"]["d"] == [0] for b in vs)
+        VS = "ant_registers::register_op::RegisterOp::verify_signature"
+        g_any = CallGuard(["ant_registers::permissions::Permissions::can_anyone_write"], ("true",), "can_anyone_write()")
+        g_perm = CallGuard([RG + "::check_user_permissions"], ("Ok",), "check_user_permissions(op.source) is Ok")
+        g_sig = CallGuard([VS], ("Ok",), "op.verify_signature(op.source) is Ok")
+        # accepting returns: explicit Ok(()) and a forwarded verdict `_0 = verify_signature(..)`
+        from rules import BlockSink
+        ok_lits = BlockSink(lambda b: RetSink("Ok").blocks(b), "return Ok(())")
+        fwd_sig = BlockSink(lambda b: [x["id"] for x in b.blocks if x["term"]["k"] == "call" and not x["cleanup"] and callee_matches(x["term"], [VS]) and x["term"]["d"] == [0]],
+                            "return op.verify_signature(..)")
+        fwd_other = [x for x in cro.blocks if x["term"]["k"] == "call" and not x["cleanup"] and x["term"]["d"] == [0] and not callee_matches(x["term"], [VS])
+                     and not (x["term"]["ngen"] or "").endswith("FromResidual::from_residual")]  # the `?` error edge is not an accepting return
+        if fwd_other:
+            R.viol("C06.check_op", "foreign-verdict", "check_register_op returns the verdict of %s" % fwd_other[0]["term"]["ncallee"], cro, fwd_other[0]["term"]["l"])
+        if ok_lits.blocks(cro):
+            R.gate("C06.check_op.ok", cro, ok_lits, [[g_any, g_perm], [g_any, g_sig]],
+                   descr="Ok(()) only for an open register, or after permission and signature checks")
+        if fwd_sig.blocks(cro):
+            R.gate("C06.check_op.sig", cro, fwd_sig, [[g_perm]], descr="the signature verdict is returned only for a permitted signer")
+        if not ok_lits.blocks(cro) and not fwd_sig.blocks(cro):
+            R.viol("C06.check_op", "no-accepting-return", "check_register_op has no recognisable accepting return", cro, cro.lines[0])
         # both checks are about op.source
-        for b in vs:
-            src = {d for d, r, p in field_reads(cro, "source")}
-            if op_local(b["term"]["args"][1]) not in Taint(cro).closure(src):
-                ok = False
-        cup = [b for b in cro.blocks if b["term"]["k"] == "call" and callee_matches(b["term"], [RG + "::check_user_permissions"])]
-        for b in cup:
-            src = {d for d, r, p in field_reads(cro, "source")}
-            if op_local(b["term"]["args"][1]) not in Taint(cro).closure(src):
+        ok = True
+        src = Taint(cro).closure({d for d, r, p in field_reads(cro, "source")})
+        for pats in ([VS], [RG + "::check_user_permissions"]):
+            cs = [x for x in cro.blocks if x["term"]["k"] == "call" and not x["cleanup"] and callee_matches(x["term"], pats)]
+            if not cs or not all(op_local(x["term"]["args"][1]) in src for x in cs):
                 ok = False
         if not ok:
-            R.viol("C06.check_op.result", "signature-result", "check_register_op does not return the verdict of verify_signature(op.source) for the permitted signer", cro, cro.lines[0])
-        R.inst("C06.check_op.result", "K6 flows-to", "result = op.verify_signature(&op.source) for the signer whose permission was checked", len(vs), ok)
+            R.viol("C06.check_op.result", "signer-identity", "permission and signature are not both checked for op.source", cro, cro.lines[0])
+        R.inst("C06.check_op.result", "K6 flows-to", "check_user_permissions(op.source) and op.verify_signature(&op.source) concern the same signer", 2, ok)
     R.gate("C06.user_perm", RG + "::check_user_permissions", RetSink("Ok"), [[CallGuard(["ant_registers::permissions::Permissions::can_write"], ("true",), "permissions.can_write(requester)")]],
            descr="check_user_permissions is Ok only for a listed writer")
     vim = R.body("C06.mergeable", RG + "::verify_is_mergeable")
@@ -156,7 +166,7 @@ def run(R):
         R.gate("C06.verify.owner", ver, RetSink("Ok"), [[CallGuard(["blsttc::PublicKey::verify"], ("true",), "owner().verify(signature, bytes)")]],
                descr="verify() is Ok only with a valid owner signature over the base register")
         R.gate_reject("C06.verify.ops", ver, RetSink("Ok"),
-                      [CallGuard([RG + "::check_register_op"], ("Ok",), "check_register_op(op) is Ok"), _SizeGuard(F)],
+                      [CallGuard([RG + "::check_register_op"], ("Ok",), "check_register_op(op) is Ok"), OrWrapperGuard(F, _SizeGuard(F), RG + "::check_register_op")],
                       descr="verify() is Ok only if every op is permitted and within the size limit")
     # (5) limit agreement
     if add is not None and ver is not None:
